@@ -648,6 +648,6 @@ def _attrs(run, P, C):
 
 
 def check(run, P):
-    _check_main(run, P)
+    run.do(_check_main, run, P)
     from . import generic
     generic.lints(run, P, "C04")
